@@ -93,6 +93,7 @@ func Tier() int {
 // Begin loads a replay file (native only; called by the replay test driver).
 func Begin(r *Replay) {
 	cur = r
+	namePrefix, prefixStack = "", nil
 	outcome = &Outcome{Probes: map[string]string{}}
 	envs = nil
 	if why := concretiseAttestations(r); why != "" {
@@ -128,10 +129,64 @@ func RunHarness(f func()) {
 	f()
 }
 
+var (
+	namePrefix  string
+	prefixStack []string
+)
+
+// PRIMITIVE. PushPrefix scopes the names of all nondeterministic inputs created until PopPrefix.
+func PushPrefix(p string) {
+	prefixStack = append(prefixStack, namePrefix)
+	namePrefix += p
+}
+
+// PRIMITIVE.
+func PopPrefix() {
+	if n := len(prefixStack); n > 0 {
+		namePrefix = prefixStack[n-1]
+		prefixStack = prefixStack[:n-1]
+	}
+}
+
+// PRIMITIVE. Prefix is the current name prefix.
+func Prefix() string { return namePrefix }
+
+// PRIMITIVE. Repeat is how often a native replay repeats a run whose outcome may depend on run-time
+// randomness such as map iteration order (symbolically 1: the engine enumerates the orders itself).
+func Repeat() int { return 24 }
+
+// SameObservations reports whether two environments recorded the same store writes and the same typed
+// events since their BeginTx marks.
+func SameObservations(a, b *Env) bool { return envSame(a.h, b.h) }
+
+// PRIMITIVE
+func envSame(ha, hb int) bool {
+	wa, wb := envWrites(ha), envWrites(hb)
+	if len(wa) != len(wb) {
+		return false
+	}
+	for i := range wa {
+		if !bytes.Equal(wa[i].Key, wb[i].Key) || !bytes.Equal(wa[i].Value, wb[i].Value) || wa[i].Delete != wb[i].Delete {
+			return false
+		}
+	}
+	ea, eb := envEvents(ha), envEvents(hb)
+	if len(ea) != len(eb) {
+		return false
+	}
+	for i := range ea {
+		if !proto.Equal(ea[i], eb[i]) {
+			return false
+		}
+	}
+	return true
+}
+
 func val(name string) (string, bool) {
 	if cur == nil {
 		panic("verifrt: no replay loaded")
 	}
+	name = namePrefix + name
 	v, ok := cur.Values[name]
 	if !ok {
 		outcome.Missing = append(outcome.Missing, name)
